@@ -268,8 +268,17 @@ func TestVerifC09Child(t *testing.T) {
 		c.Harness("journal: %v", err)
 	}
 	j := &c09Journal{f: f, reportAt: reportAt}
+	t0 := time.Now()
+	timing := func(what string) { // diagnostics only
+		if os.Getenv("VERIF_C09_TIMING") != "" {
+			fmt.Fprintf(os.Stderr, "C09-TIMING %s %v\n", what, time.Since(t0))
+		}
+	}
+	timing("start")
 	s := c09NewSim(t, c, h, true)
-	j.write(c, c09Line{K: "open", DB: s.dbName})
+	timing("sim created")
+	// the genesis block carries the creation time: the parent must rebuild its reference on THIS block
+	j.write(c, c09Line{K: "open", DB: s.dbName, B: protocol.Encode(&s.genesis.Block)})
 	durable := func(r basics.Round, via string) { j.write(c, c09Line{K: "durable", R: uint64(r), Via: via}) }
 	cpSeen := map[uint64]bool{}
 	lastLabel := ""
@@ -292,6 +301,7 @@ func TestVerifC09Child(t *testing.T) {
 		if err != nil {
 			c.Harness("child cannot produce block: %v", err)
 		}
+		timing(fmt.Sprintf("block %d", b+1))
 		latest := s.l.Latest()
 		switch s.r.Pick([]int{34, 14, 8, 16, 4, 5, 6, 8}) {
 		case 0: // keep adding while the syncer works in the background
@@ -847,6 +857,7 @@ func c09Judge1(t testing.TB, c *kit.Ctx, cs c09Case, run c09Run) (hits map[strin
 		return nil, 0, fmt.Errorf("%s: %v", cs, jerr)
 	}
 	var dbName, label string
+	var genesisBlock bookkeeping.Block
 	added := map[basics.Round]c09Line{}
 	var maxAdded, maxDurable, maxFlushed basics.Round
 	durableVia := ""
@@ -856,6 +867,9 @@ func c09Judge1(t testing.TB, c *kit.Ctx, cs c09Case, run c09Run) (hits map[strin
 		switch ln.K {
 		case "open":
 			dbName = ln.DB
+			if err := protocol.Decode(ln.B, &genesisBlock); err != nil {
+				return nil, 0, fmt.Errorf("%s: journaled genesis block undecodable: %v", cs, err)
+			}
 		case "add":
 			added[basics.Round(ln.R)] = ln
 			maxAdded = max(maxAdded, basics.Round(ln.R))
@@ -930,6 +944,13 @@ func c09Judge1(t testing.TB, c *kit.Ctx, cs c09Case, run c09Run) (hits map[strin
 
 	ref := c09NewSim(t, c, cs.hist, false)
 	defer ref.close()
+	// same accounts and genesis hash (same PRNG draws); adopt the child's genesis block (creation time)
+	ref.l.Close()
+	ref.genesis.Block = genesisBlock
+	ref.dbName += "-ref"
+	ref.open()
+	ref.m = hlNewModel()
+	ref.m.initGenesis(genesisBlock.BlockHeader, ref.genesis.Accounts)
 	cfgR := c.Rand(9, uint64(cs.hist))
 	cfg := c09Config(cfgR, cs.hist)
 	cfg.OnDisk = true
